@@ -33,7 +33,7 @@ def bad_events(obs):
             bad.append(e)
         elif e[0] == "cleanup" and e[2]:
             bad.append(e)
-        elif e[0] == "undef":
+        elif e[0] == "undef" or e[0] == "hookabort":
             bad.append(e)
         elif e[0] == "step":
             if e[1] in ("fail", "error", "kbd", "abort"):
@@ -262,6 +262,8 @@ def suites(tier, seed):
         p = rc.gen_program(rnd)
         if i % 2:
             p = rc.with_random_faults(rnd, p)
+        if i % 5 == 0:
+            p = rc.with_random_aborts(rnd, p)       # some hook calls context.abort() and returns
         cases.append(p)
     cases += wip_boundary_programs(rnd, 400 if tier == "thorough" else 90)
     projects = [{"env": e, "outcome": o, "args": a} for e in PROJECT_ENVS for o in ("pass", "fail", "undefined")
